@@ -5,13 +5,13 @@
 d=$1; cd $d || exit 2
 export CARGO_NET_OFFLINE=true CARGO_TARGET_DIR=$d/target
 log=$d/SEED/confirm.log; : > $log
-demo=$(ls tests/seeded_demo*.rs 2>/dev/null | head -1)
+demo=$(find . -name "seeded_demo*.rs" -not -path "./target*" -not -path "./SEED/*" | head -1)
 demoname=$(basename ${demo%.rs})
 # a demo that needs small pages / regions uses the cfg(redb_verif) setters: run it with the flag
 # (separate target directory, removed afterwards); the suite itself always runs with the guard off
 demoflags=""; demotarget=$d/target
 if grep -q redb_verif $demo; then demoflags="--cfg redb_verif"; demotarget=$d/target-verif; echo "(demo is run with RUSTFLAGS=--cfg redb_verif)" >> $log; fi
-rundemo() { RUSTFLAGS="$demoflags" CARGO_TARGET_DIR=$demotarget cargo nextest run -p redb@4.2.0 --test $demoname --no-fail-fast --offline 2>&1 | grep -E "Summary|FAIL \[|PASS \[" | sort -u >> $log; }
+rundemo() { RUSTFLAGS="$demoflags" CARGO_TARGET_DIR=$demotarget cargo nextest run --workspace -E "binary($demoname)" --no-fail-fast --offline 2>&1 | grep -E "Summary|FAIL \[|PASS \[" | sort -u >> $log; }
 echo "== with change: full suite" >> $log
 cargo nextest run --workspace --no-fail-fast --test-threads 8 --offline 2>&1 | grep -E "Summary|FAIL \[" | sort -u >> $log
 echo "== with change: demo only" >> $log
